@@ -158,6 +158,8 @@ func doInitExtensions(domain string, agentPaths []string, execCtx *rapidContext,
 		}
 		agentName := fmt.Sprintf("extension-%s-%d", path.Base(agentPath), execCtx.runtimeDomainGeneration)
 
+		// the exit of the process can be reported before Exec has returned, so its exited channel must exist by then
+		execCtx.shutdownContext.createExitedChannel(agentName)
 		err = execCtx.supervisor.Exec(context.Background(), &supvmodel.ExecRequest{
 			Domain: domain,
 			Name:   agentName,
@@ -175,11 +177,10 @@ func doInitExtensions(domain string, agentPaths []string, execCtx *rapidContext,
 			StderrWriter: agentStderrWriter,
 		})
 		if err != nil {
+			execCtx.shutdownContext.removeExitedChannel(agentName)
 			agentLaunchError(agent, execCtx.appCtx, err)
 			return err
 		}
-
-		execCtx.shutdownContext.createExitedChannel(agentName)
 	}
 
 	if err := initFlow.AwaitExternalAgentsRegistered(); err != nil {
@@ -345,6 +346,8 @@ func doRuntimeDomainInit(execCtx *rapidContext, sbInfoFromInit interop.SandboxIn
 	checkCredentials(execCtx, bootstrapEnv)
 	name := fmt.Sprintf("%s-%d", runtimeProcessName, execCtx.runtimeDomainGeneration)
 
+	// the exit of the process can be reported before Exec has returned, so its exited channel must exist by then
+	execCtx.shutdownContext.createExitedChannel(name)
 	err = execCtx.supervisor.Exec(context.Background(), &supvmodel.ExecRequest{
 		Domain: RuntimeDomain,
 		Name:   name,
@@ -373,6 +376,7 @@ func doRuntimeDomainInit(execCtx *rapidContext, sbInfoFromInit interop.SandboxIn
 	}()
 
 	if err != nil {
+		execCtx.shutdownContext.removeExitedChannel(name)
 		if fatalError, formattedLog, hasError := sbInfoFromInit.RuntimeBootstrap.CachedFatalError(err); hasError {
 			appctx.StoreFirstFatalError(execCtx.appCtx, fatalError)
 			execCtx.eventsAPI.SendImageErrorLog(interop.ImageErrorLogData(formattedLog))
@@ -383,8 +387,6 @@ func doRuntimeDomainInit(execCtx *rapidContext, sbInfoFromInit interop.SandboxIn
 		runtimeDoneStatus = telemetry.RuntimeDoneError
 		return err
 	}
-
-	execCtx.shutdownContext.createExitedChannel(name)
 
 	if err := initFlow.AwaitRuntimeRestoreReady(); err != nil {
 		runtimeDoneStatus = telemetry.RuntimeDoneError
